@@ -149,9 +149,57 @@ class MustWrite:
             return c | (a & b)
         if k == "switch":
             return self.stmt_expr(n.get("c"), depth) | self._switch(n, depth, fn)
-        if k in ("for", "while", "do", "rangefor", "try"):
+        if k == "rangefor":
+            return self._table_search(n, depth, fn)
+        if k in ("for", "while", "do", "try"):
             return set()
         return self.stmt_expr(n, depth)
+
+    def _table_search(self, n, depth, fn):
+        """`for (row : TABLE) if (row.key == param) { writes; return|break; }` over a constant array whose key column
+        holds every enumerator of the parameter's enum type: the writes of the matching branch happen for every value."""
+        rng = n.get("range") or {}
+        body = n.get("body") or {}
+        stmts = body.get("s", []) if body.get("k") == "block" else [body]
+        if rng.get("k") != "ref" or rng.get("dk") not in ("global", "staticlocal", "local") or len(stmts) != 1 or \
+                stmts[0].get("k") != "if":
+            return set()
+        iff = stmts[0]
+        c = iff.get("c") or {}
+        if c.get("k") != "bin" or c.get("op") != "==" or iff.get("else") is not None:
+            return set()
+        key, par = None, None
+        for a, b in ((c["lhs"], c["rhs"]), (c["rhs"], c["lhs"])):
+            if a.get("k") == "member" and b.get("k") == "ref" and b.get("dk") == "param":
+                key, par = a, b
+        if key is None:
+            return set()
+        et = (par.get("t") or "").replace("const ", "")
+        enum = self.F.enums.get(et)
+        if enum is None:
+            return set()
+        then = iff.get("then") or {}
+        tl = then.get("s", []) if then.get("k") == "block" else [then]
+        if not tl or tl[-1].get("k") not in ("return", "break"):
+            return set()
+        keys = set()
+        tables = [g for g in self.F.globals.get(rng.get("q") or rng.get("name"), []) if g.get("const")]
+        if rng.get("dk") != "global":        # a function-local (static) constant table
+            for d in walk(fn.get("body")):
+                if d.get("k") == "decl":
+                    tables += [v for v in d.get("vars", []) if v.get("id") == rng.get("id") and
+                               (v.get("const") or "const" in (v.get("t") or ""))]
+        for g in tables:
+            if g.get("init") is None:
+                continue
+            for row in walk(g["init"]):
+                if row.get("k") == "initlist":
+                    for e in row.get("e") or []:
+                        if isinstance(e, dict) and e.get("k") == "ref" and e.get("dk") == "enumerator" and e.get("enum") == et:
+                            keys.add(e["name"])
+        if not all(v["name"] in keys for v in enum["values"]):
+            return set()
+        return self.stmt({"k": "block", "s": tl[:-1]}, depth, fn)
 
     def _switch(self, n, depth, fn):
         """A switch over an enum whose cases cover every enumerator and each end in break/return:
@@ -528,9 +576,16 @@ def run_startcond(chk, F, CG, L, rid="R-STARTCOND"):
         sets = ("yy_start", None) in ws
         # and the value must be INITIAL (1 + 2*0)
         val_ok = False
-        for x in walk(f["body"]):
-            if x.get("k") == "bin" and x.get("op") == "=" and _root(x["lhs"])[0] == "yy_start":
-                val_ok = x["rhs"].get("cv") == 1
+        bodies, seen_q = [f], {f["q"]}
+        for c in calls(f["body"]):
+            for t in CG.targets(c):
+                if t.get("body") is not None and t["q"] not in seen_q and (t.get("file") or "").endswith(USER_FILES):
+                    seen_q.add(t["q"])
+                    bodies.append(t)
+        for b in bodies:
+            for x in walk(b["body"]):
+                if x.get("k") == "bin" and x.get("op") == "=" and _root(x["lhs"])[0] == "yy_start":
+                    val_ok = x["rhs"].get("cv") == 1
         if not (sets and val_ok):
             reset_everywhere = False
     exits = []
@@ -596,29 +651,54 @@ def run_startcond(chk, F, CG, L, rid="R-STARTCOND"):
 def run_buffer(chk, F, CG, rid="R-BUFFER"):
     chk.rule(rid, "every function that reaches utap_parse() from outside installs a fresh scan buffer "
                   "(utap__scan_string / utap__switch_to_buffer(utap__create_buffer)) before and deletes the current "
-                  "buffer after the parse")
+                  "buffer after the parse - itself or through the helpers it calls")
     fs = funnels(F)
-    fq = {f["q"] for f in fs}
+
+    def closure(fn, seen=None):
+        """names of everything called from fn, through user-code helpers (lambda bodies are part of the body)"""
+        seen = seen if seen is not None else set()
+        out = set()
+        for c in calls(fn.get("body")):
+            out.add(c.get("name"))
+            for t in CG.targets(c):
+                if t.get("body") is not None and t["q"] + str(t.get("sig")) not in seen and \
+                        (t.get("file") or "").endswith(USER_FILES):
+                    seen.add(t["q"] + str(t.get("sig")))
+                    out |= closure(t, seen)
+                    if t in fs:
+                        out.add("<funnel>")
+        return out
     n = 0
     for fn in F.functions.values():
-        cs = calls(fn.get("body"))
-        inner = [c for c in cs if any(t in fs for t in CG.targets(c))]
-        if not inner or fn in fs:
+        if not (fn.get("file") or "").endswith(USER_FILES) or fn in fs or fn.get("static") or fn.get("templated"):
+            continue
+        cl = closure(fn)
+        if "<funnel>" not in cl:
             continue
         n += 1
+        ok_b = "utap__scan_string" in cl or ("utap__switch_to_buffer" in cl and "utap__create_buffer" in cl)
+        ok_a = "utap__delete_buffer" in cl
+        # the install must come first: the first top-level statement that reaches the funnel is preceded by it
         body = fn["body"].get("s", [])
-        idx = None
-        for i, s in enumerate(body):
-            if any(c in inner for c in calls(s)):
-                idx = i
-                break
-        before = [c.get("name") for s in body[:idx] for c in calls(s)] if idx is not None else []
-        after = [c.get("name") for s in body[idx + 1:] for c in calls(s)] if idx is not None else []
-        ok_b = "utap__scan_string" in before or ("utap__switch_to_buffer" in before and "utap__create_buffer" in before)
-        ok_a = "utap__delete_buffer" in after
-        chk.ob(rid, "%s/%d" % (fn["name"], len(fn["params"])), ok_b and ok_a,
-               "%s parses without %s" % (fn["q"], "installing a fresh buffer" if not ok_b else "deleting its buffer")
-               if not (ok_b and ok_a) else "%s: buffer installed before and deleted after the parse" % fn["q"],
+        first_funnel = first_install = None
+        for i, st in enumerate(body):
+            names = set()
+            for c in calls(st):
+                names.add(c.get("name"))
+                for t in CG.targets(c):
+                    if t in fs:
+                        names.add("<funnel>")
+                    elif t.get("body") is not None and (t.get("file") or "").endswith(USER_FILES):
+                        names |= closure(t)
+            if first_install is None and ("utap__scan_string" in names or "utap__switch_to_buffer" in names):
+                first_install = i
+            if first_funnel is None and "<funnel>" in names and not (names & {"utap__scan_string"}) :
+                first_funnel = i
+        order_ok = first_install is not None and (first_funnel is None or first_install <= first_funnel)
+        chk.ob(rid, "%s/%d" % (fn["name"], len(fn["params"])), ok_b and ok_a and order_ok,
+               "%s parses without %s" % (fn["q"], "installing a fresh buffer first" if not (ok_b and order_ok)
+                                         else "deleting its buffer")
+               if not (ok_b and ok_a and order_ok) else "%s: buffer installed before and deleted after the parse" % fn["q"],
                "%s:%s" % (fn["file"], fn["line"]))
     if n < 3:
         raise AnalysisBroken("only %d buffer-managing entry points found" % n)
